@@ -181,6 +181,68 @@ def factorsP (lenient : Bool) : Pred → Except Err FMap
 
 def factorsOf (lenient : Bool) (f : Feature) : Except Err FMap := factorsP lenient (toPred f)
 
+/-! ### `Factors.merge` as /repo HEAD has it: two factors of one table are "the same" when their `hash()` agrees
+
+`merge` combines `left[k]` and `right[k]` only `if hash(left[k]) != hash(right[k])` — a leftover of the time when DSL
+equality was hash equality (equality is structural since 9f6ec89).  CPython hashes of integers collide systematically:
+`hash(-1) == hash(-2) == -2` and `hash(n) == hash(n ± (2^61 - 1))`; the hash of a feature is the XOR of its class hash and
+the tuple hash of its terms, so two features which differ in such literals only collide.  `hashKey` replaces every
+integer literal by its CPython hash: features with equal keys have equal hashes (accidental XOR collisions are not
+modelled).  The development above (`mergeF`: structural identity) is the code as repaired by
+fixes/C14-merge-hash-dedup.diff (finding C14-X7). -/
+
+/-- CPython `hash(int)`: reduction modulo the Mersenne prime `2^61 - 1` keeping the sign, `-1` is reserved -/
+def pyHashInt (n : Int) : Int :=
+  let m : Int := 2305843009213693951
+  let h := if n < 0 then -((-n) % m) else n % m
+  if h = -1 then -2 else h
+
+mutual
+def hashKey : Feature → Feature
+  | .lit (.int n) => .lit (.int (pyHashInt n))
+  | .lit v => .lit v
+  | .elem o n => .elem o n
+  | .alias f n => .alias (hashKey f) n
+  | .expr op args => .expr op (hashKeyL args)
+  | .cast f k => .cast (hashKey f) k
+  | .window f p o => .window f p o
+def hashKeyL : Features → Features
+  | .nil => .nil
+  | .cons f fs => .cons (hashKey f) (hashKeyL fs)
+end
+
+/-- `Factors.merge` with the test that tells whether the two factors of a table are one and the same as a parameter -/
+def mergeFG (same : Feature → Feature → Bool) (op : Op) (l r : FMap) : FMap :=
+  l.map (fun kv => match r.lookup kv.1 with
+    | some b => if same kv.2 b then kv else (kv.1, binop op kv.2 b)
+    | none => kv)
+  ++ r.filter (fun kv => (l.lookup kv.1).isNone)
+
+def orFG (same : Feature → Feature → Bool) (l r : FMap) : FMap :=
+  l.filterMap (fun kv => match r.lookup kv.1 with
+    | some b => some (if same kv.2 b then kv else (kv.1, binop .or kv.2 b))
+    | none => none)
+
+def factorsPG (same : Feature → Feature → Bool) (lenient : Bool) : Pred → Except Err FMap
+  | .atom f => .ok (primitive f)
+  | .and a b =>
+    match factorsPG same lenient a, factorsPG same lenient b with
+    | .ok l, .ok r => .ok (mergeFG same .and l r)
+    | .error e, _ => .error e
+    | _, .error e => .error e
+  | .or a b =>
+    match factorsPG same lenient a, factorsPG same lenient b with
+    | .ok l, .ok r => .ok (orFG same l r)
+    | .error e, _ => .error e
+    | _, .error e => .error e
+  | .other _ => if lenient then .ok [] else .error .attributeError
+
+/-- the test of /repo HEAD: `hash(left[k]) == hash(right[k])` -/
+def sameHash (a b : Feature) : Bool := hashKey a == hashKey b
+
+/-- `.factors` of /repo HEAD -/
+def factorsOfHash (lenient : Bool) (f : Feature) : Except Err FMap := factorsPG sameHash lenient (toPred f)
+
 /-! ### parser context (`parser.Container.Context.Tables`) -/
 
 /-- all segments of one context, flat: (table, field name) and (table, factor); sets in Python -/
